@@ -103,7 +103,7 @@ theorem fitsT_or_bad (enc : Enc) : ∀ (n : Nat) (ty : Ty) (b : Bool) (v : Node)
         | nil => exact Or.inl .emptySt
         | cons x xs => exact Or.inr .stArr
       | obj dfs =>
-        by_cases hex : ∃ k o x i t, (k, o, x) ∈ dfs ∧ lookupIdx (decode enc k) fs 0 = some (i, t) ∧ Bad enc true t x
+        by_cases hex : ∃ k o x i t, (k, o, x) ∈ dfs ∧ lookupIdx (decode enc k.bytes) fs 0 = some (i, t) ∧ Bad enc true t x
         · obtain ⟨k, o, x, i, t, hm, hl, hb⟩ := hex
           exact Or.inr (.stElem hm hl hb)
         · refine Or.inl (.st (fun k o x hm i t hl => ?_))
